@@ -523,39 +523,95 @@ func cmdRun(args []string) {
 	sort.Strings(sigs)
 	exit := 0
 	var knownSeen, newViol []map[string]any
-	for _, sig := range sigs {
+	// fresh-process replays run side by side (a broken tree can produce dozens of signatures)
+	type confirmation struct {
+		notes []string
+		infra string
+	}
+	confs := make([]confirmation, len(sigs))
+	{
+		sem := make(chan struct{}, 8)
+		var wg sync.WaitGroup
+		for i, sig := range sigs {
+			wg.Add(1)
+			go func(i int, sig string) {
+				defer wg.Done()
+				sem <- struct{}{}
+				defer func() { <-sem }()
+				v := bySig[sig]
+				c := &confs[i]
+				if v.Replay == "" {
+					c.infra = fmt.Sprintf("violation %s has no replay file", sig)
+					return
+				}
+				rs, e, ci := startWorker(b.worker, b.dir, job{"mode": "replay", "file": v.Replay, "race_bin": b.race}, "replay-"+hash8(sig), []string{"GOMAXPROCS=1"}, 6_000_000)
+				if e != "" {
+					c.infra = fmt.Sprintf("replay of %s failed: %s", v.Replay, e)
+					return
+				}
+				var gotSig, gotHash string
+				if ci != nil {
+					gotSig = *prop + "|host-crash|no-host-crash|" + ci.Sig
+				} else {
+					gotSig, _ = rs.Replay["sig"].(string)
+					gotHash, _ = rs.Replay["log_hash"].(string)
+				}
+				freeMode := strings.Contains(sig, "|free:") || v.Class == "data-race"
+				replayMode := ""
+				if rs != nil {
+					replayMode = rs.Hashes["replay_mode"]
+				}
+				switch {
+				case gotSig == sig && strings.HasPrefix(replayMode, "process-history:"):
+					// The run alone is clean in a fresh process; after the runs that preceded it in its worker it
+					// fails the same way: the product carries state from one run to the next inside a process.
+					c.notes = append(c.notes, fmt.Sprintf("NOTE: %s reproduces only after the %s run(s) that preceded it in its worker process (process-level state in the product); `simcheck replay` re-executes them", v.Replay, strings.TrimPrefix(replayMode, "process-history:")))
+				case gotSig == sig && (gotHash == v.LogHash || freeMode):
+					// reproduced exactly
+				case gotSig == sig:
+					// Same violation, different event log: the product itself carries state from earlier
+					// runs of the worker process into this one (that is usually the defect being reported).
+					c.notes = append(c.notes, fmt.Sprintf("NOTE: replay of %s reproduces the violation; its event log differs from the one recorded in the worker process (process-level state in the product)", v.Replay))
+				case freeMode:
+					// free mode runs real goroutines under an uncontrolled schedule (DESIGN 1.6): the report stands
+					// on the race detector's / the runtime's own evidence even if a bounded number of reruns does not hit the window again
+					c.notes = append(c.notes, fmt.Sprintf("NOTE: %s was observed under an uncontrolled schedule and did not recur in 12 reruns", v.Replay))
+				case *prop == "C14":
+					// C14 is the property that forbids exactly this: the same sources, the same host and the same
+					// simulator choices gave a different result. Either further fresh processes show it again, or
+					// something that no seam controls decides (Go's pick among ready select cases, a goroutine
+					// started inside the standard library); the recorded run stands as the evidence.
+					again := 0
+					for k := 0; k < 3 && again == 0; k++ {
+						rs2, e2, ci2 := startWorker(b.worker, b.dir, job{"mode": "replay", "file": v.Replay, "race_bin": b.race}, fmt.Sprintf("replay-%s-%d", hash8(sig), k), []string{"GOMAXPROCS=1"}, 6_000_000)
+						if e2 == "" && ci2 == nil && rs2 != nil {
+							if s2, _ := rs2.Replay["sig"].(string); s2 == sig {
+								again = k + 2
+							}
+						}
+					}
+					if again > 0 {
+						c.notes = append(c.notes, fmt.Sprintf("NOTE: %s is not reproduced by every replay (reproduced by replay %d): the result of this run depends on something no simulator seam controls", v.Replay, again))
+					} else {
+						c.notes = append(c.notes, fmt.Sprintf("NOTE: %s was recorded in the worker but 4 replays with the same choices (alone and after the runs that preceded it) gave the baseline result: the result depends on something no simulator seam controls; the recorded outputs are in the replay file", v.Replay))
+					}
+				default:
+					c.infra = fmt.Sprintf("NONDETERMINISM: replay of %s in a fresh process gave sig=%q hash=%s, recorded sig=%q hash=%s", v.Replay, gotSig, gotHash, sig, v.LogHash)
+				}
+			}(i, sig)
+		}
+		wg.Wait()
+	}
+	for _, c := range confs {
+		if c.infra != "" {
+			b.cleanup()
+			infra("%s", c.infra)
+		}
+	}
+	for i, sig := range sigs {
 		v := bySig[sig]
-		if v.Replay == "" {
-			b.cleanup()
-			infra("violation %s has no replay file", sig)
-		}
-		rs, e, ci := startWorker(b.worker, b.dir, job{"mode": "replay", "file": v.Replay, "race_bin": b.race}, "replay-"+hash8(sig), []string{"GOMAXPROCS=1"}, 6_000_000)
-		if e != "" {
-			b.cleanup()
-			infra("replay of %s failed: %s", v.Replay, e)
-		}
-		var gotSig, gotHash string
-		if ci != nil {
-			gotSig = *prop + "|host-crash|no-host-crash|" + ci.Sig
-		} else {
-			gotSig, _ = rs.Replay["sig"].(string)
-			gotHash, _ = rs.Replay["log_hash"].(string)
-		}
-		freeMode := strings.Contains(sig, "|free:") || v.Class == "data-race"
-		switch {
-		case gotSig == sig && (gotHash == v.LogHash || freeMode):
-			// reproduced exactly
-		case gotSig == sig:
-			// Same violation, different event log: the product itself carries state from earlier
-			// runs of the worker process into this one (that is usually the defect being reported).
-			fmt.Printf("NOTE: replay of %s reproduces the violation; its event log differs from the one recorded in the worker process (process-level state in the product)\n", v.Replay)
-		case freeMode:
-			// free mode runs real goroutines under an uncontrolled schedule (DESIGN 1.6): the report stands
-			// on the race detector's / the runtime's own evidence even if a bounded number of reruns does not hit the window again
-			fmt.Printf("NOTE: %s was observed under an uncontrolled schedule and did not recur in 12 reruns\n", v.Replay)
-		default:
-			b.cleanup()
-			infra("NONDETERMINISM: replay of %s in a fresh process gave sig=%q hash=%s, recorded sig=%q hash=%s", v.Replay, gotSig, gotHash, sig, v.LogHash)
+		for _, n := range confs[i].notes {
+			fmt.Println(n)
 		}
 		matched := false
 		for _, k := range known {
